@@ -1,6 +1,12 @@
 package main
 
-import "strings"
+import (
+	"fmt"
+	"sort"
+	"strings"
+
+	"golang.org/x/tools/go/ssa"
+)
 
 type StaticObl struct {
 	Name    string
@@ -44,8 +50,118 @@ func (e *Engine) dropImm(ws map[string]HeapVar) {
 	}
 }
 
-// staticObligations: obligations decided on the SSA call graph / by dataflow
-// rather than by SMT (callers-only, immutable fields, lock order, guarded-by).
+// staticObligations: obligations decided on the SSA of the whole module rather
+// than by SMT: "callers-only" (ownership by call-graph closure) - a function
+// is called, or taken as a value, only inside the listed callers.
 func (e *Engine) staticObligations(prop string) []StaticObl {
-	return nil
+	var out []StaticObl
+	for _, co := range e.CS.CallersOnly {
+		serves := false
+		for _, s := range co.Serves {
+			if s == prop {
+				serves = true
+			}
+		}
+		if !serves {
+			continue
+		}
+		allowed := map[string]bool{}
+		for _, c := range co.Callers {
+			allowed[c] = true
+		}
+		name := strings.TrimPrefix(co.PkgPath, "github.com/andydunstall/piko/") + "." + co.Callee + "#callers-only"
+		if co.Label != "" {
+			name += "[" + co.Label + "]"
+		}
+		var bad []string
+		found := false
+		var keys []string
+		for k := range e.fnByKey {
+			keys = append(keys, k)
+		}
+		sort.Strings(keys)
+		isTarget := func(fn *ssa.Function) bool {
+			if fn == nil {
+				return false
+			}
+			o := fn
+			if fn.Origin() != nil {
+				o = fn.Origin()
+			}
+			return fnPkgPath(o) == co.PkgPath && fnKey(o) == co.Callee
+		}
+		for _, k := range keys {
+			fn := e.fnByKey[k]
+			if isTarget(fn) {
+				found = true
+			}
+			caller := strings.TrimPrefix(fnPkgPath(fn), "github.com/andydunstall/piko/") + "." + fnKey(fn)
+			short := fnKey(fn)
+			for _, b := range fn.Blocks {
+				for _, in := range b.Instrs {
+					hit := false
+					if ci, ok := in.(ssa.CallInstruction); ok {
+						c := ci.Common()
+						if isTarget(c.StaticCallee()) {
+							hit = true
+						}
+						// interface method named like the callee "(I).M" of the same package
+						if c.IsInvoke() && strings.HasPrefix(co.Callee, "(") && !strings.HasPrefix(co.Callee, "(*") {
+							if n, ok := c.Value.Type().(interface{ Obj() interface{ Name() string } }); ok {
+								_ = n
+							}
+							key := ifaceKey(c)
+							if key == co.PkgPath+"."+co.Callee {
+								hit = true
+							}
+						}
+					}
+					// the function taken as a value (method value, closure argument)
+					for _, op := range in.Operands(nil) {
+						if op == nil || *op == nil {
+							continue
+						}
+						if f, ok := (*op).(*ssa.Function); ok && isTarget(f) {
+							if ci, isCall := in.(ssa.CallInstruction); !isCall || ci.Common().StaticCallee() != f {
+								hit = true
+							}
+						}
+						if mc, ok := (*op).(*ssa.MakeClosure); ok {
+							if f, ok := mc.Fn.(*ssa.Function); ok && strings.Contains(f.Name(), "$bound") && f.Object() != nil {
+								_ = f
+							}
+						}
+					}
+					if hit && !allowed[short] && !allowed[caller] {
+						bad = append(bad, fmt.Sprintf("%s (%s)", caller, e.P.Fset.Position(in.Pos())))
+					}
+				}
+			}
+		}
+		clause := fmt.Sprintf("%s is called (or taken as a value) only in: %s", co.Callee, strings.Join(co.Callers, ", "))
+		switch {
+		case !found && !(strings.HasPrefix(co.Callee, "(") && !strings.HasPrefix(co.Callee, "(*")):
+			out = append(out, StaticObl{name, clause, "failed", "no function " + co.Callee + " in " + co.PkgPath})
+		case len(bad) > 0:
+			out = append(out, StaticObl{name, clause, "failed", "other call sites: " + strings.Join(bad, "; ")})
+		default:
+			out = append(out, StaticObl{name, clause, "unsat", ""})
+		}
+	}
+	return out
+}
+
+func ifaceKey(c *ssa.CallCommon) string {
+	t := c.Value.Type()
+	type named interface {
+		Obj() interface {
+			Name() string
+		}
+	}
+	s := t.String() // pkgpath.Name
+	i := strings.LastIndex(s, ".")
+	if i < 0 {
+		return ""
+	}
+	return s[:i] + ".(" + s[i+1:] + ")." + c.Method.Name()
 }
